@@ -4,18 +4,20 @@ EXTENDS LibGraph, Json, IOUtils
 
 MCCells == {"c1", "c2", "c3", "c4", "c5"}
 MCRaws == {"r1", "r2", "r3", "r4"}
-MCNewNames == {"m1", "m2"}
+\* (one new name shorter than every existing name, one of the usual length: names differ in length and
+\* share prefixes, "n3" / "n3b", so that a comparison that looks at a prefix only confuses them)
+MCNewNames == {"m", "m2"}
 Tags == {"t1", "t2", "t3"}
 MCTagMaps == {[id |-> "swap12", f |-> [t1 |-> "t2", t2 |-> "t1", t3 |-> "t3"]],
               [id |-> "t1to3",  f |-> [t1 |-> "t3", t2 |-> "t2", t3 |-> "t3"]]}
 
 \* c1 is the top cell; c3 is a shared sub-cell; c4 is a replacement candidate carrying c1's
 \* name; r3 is a raw cell from a second file carrying r1's name.
-InitName == [c1 |-> "n1", c2 |-> "n2", c3 |-> "n3", c4 |-> "n1", c5 |-> "n5",
+InitName == [c1 |-> "n1", c2 |-> "n2", c3 |-> "n3", c4 |-> "n1", c5 |-> "n3b",
              r1 |-> "q1", r2 |-> "q2", r3 |-> "q1", r4 |-> "q4"]
 InitRefs == [c1 |-> <<Ref("cell", "c2"), Ref("cell", "c3"), Ref("name", "n3"),
                       Ref("raw", "r1"), Ref("name", "zz")>>,
-             c2 |-> <<Ref("cell", "c3"), Ref("name", "q2"), Ref("raw", "r2")>>,
+             c2 |-> <<Ref("cell", "c3"), Ref("name", "q2"), Ref("raw", "r2"), Ref("name", "n3b")>>,
              c3 |-> <<>>,
              c4 |-> <<Ref("cell", "c3"), Ref("name", "n2")>>,
              c5 |-> <<Ref("cell", "c3"), Ref("raw", "r2")>>]
